@@ -73,6 +73,32 @@ def finding_for(query, mech, spec):
     return PATH_FINDING.get(mpath)
 
 
+def name_failed(cq):
+    """the property theorem whose obligation broke: the failing lemma of a dependency (first error in the log) mapped
+    to the theorem of Properties_C04.v that is proved by it"""
+    import re
+    if cq.get("failed_theorem") and not str(cq["failed_theorem"]).startswith("dependency"):
+        return cq["failed_theorem"]
+    m = re.search(r'File "\./(C04/[^"]+\.v)", line (\d+)', cq.get("log", ""))
+    if not m:
+        return cq.get("failed_theorem") or "dependency"
+    f, ln = m.group(1), int(m.group(2))
+    lemma = None
+    try:
+        for l in open(os.path.join(common.COQ, f)).read().split("\n")[:ln]:
+            mm = re.match(r"\s*(?:Lemma|Theorem|Corollary|Definition)\s+([A-Za-z0-9_']+)", l)
+            if mm:
+                lemma = mm.group(1)
+        props = common.strip_coq_comments(open(os.path.join(common.COQ, PROP, "Properties_%s.v" % PROP)).read())
+        for blk in re.split(r"(?=^\s*Theorem\s)", props, flags=re.M):
+            mt = re.match(r"\s*Theorem\s+([A-Za-z0-9_']+)", blk)
+            if mt and lemma and re.search(r"\b%s\b" % re.escape(lemma), blk):
+                return "%s (lemma %s in %s)" % (mt.group(1), lemma, f)
+    except OSError:
+        pass
+    return "lemma %s in %s" % (lemma, f)
+
+
 # ------------------------------------------------------------------ running the models
 def model_run(sexprs, fuel=4000, timeout=1800):
     """Ref with checked global initialisers: -> list of {src, expect, out} (protocol of ocaml/lang_driver.ml)."""
@@ -213,6 +239,14 @@ def run(rep):
                 fid = finding_for(meta["query"], mech[k], spec[k])
                 if agrees(i, mech[k], meta["extra"]) and fid:
                     known_cells[fid] += 1
+                elif agrees(i, mech[k], meta["extra"]):
+                    # the model of today's code (with the table just re-extracted from the C++) and main agree with each
+                    # other and not with the property, on a path for which no defect is recorded
+                    violations.append(("matrix", {"sexpr": s, "cell": meta, "program": m["src"], "expected_outcome": m["expect"],
+                                                  "expected_stdout": m["out"], "mech": mech[k], "impl_rc": i["rc"], "impl_stdout": i["out"],
+                                                  "impl_stderr": i["err"][-400:], "why": badmap.get(k)},
+                                       "store path %s, type %s, value %d (%s): main (and the model regenerated from the current C++) give `%s`, "
+                                       "the property demands `%s`" % (meta["path"], meta["type"], meta["value"], meta["kind"], mech[k], spec[k]), False))
                 elif k not in badmap:
                     fixed_cells[fid or meta["path"]] += 1
                 else:
@@ -300,17 +334,29 @@ def run(rep):
     # (5) a broken proof obligation: name it; the matrix above is the targeted search for a concrete input
     if proof_broken:
         concrete = [v for v in violations if v[0] in ("matrix", "prog")]
-        rep.violation("proof", {"theorem": cq["failed_theorem"], "log": cq["log"][-3000:], "translator": rep.coverage["translator"],
-                                "concrete_inputs_found": len(concrete)},
-                      "proof obligation %s no longer checks (generated range table / test / clamp changed?)" % cq["failed_theorem"],
+        failed = name_failed(cq)
+        rep.violation("proof", {"theorem": failed, "log": cq["log"][-3000:], "translator": rep.coverage["translator"],
+                                "concrete_inputs_found": len(concrete),
+                                "first_concrete_input": (concrete[0][1] if concrete else None)},
+                      "proof obligation %s no longer checks (generated range table / test / clamp changed?)" % failed,
                       no_failing_input=not concrete)
     seen = collections.Counter()
+    written = 0
     for name, payload, text, noinp in violations:
         key = (name, payload.get("cell", {}).get("path") if isinstance(payload.get("cell"), dict) else None)
         seen[key] += 1
-        if seen[key] > 3:
-            continue                       # a few replays per path are enough
+        if seen[key] > 2 or written >= 12:
+            continue                       # a few replays per path are enough; the total is in the evidence
         rep.violation(name, payload, text, noinp)
+        written += 1
+
+    # (6) thorough tier: the independent checker over the .vo closure of the property file
+    if not quick and not proof_broken:
+        rc, o, e = common.sh(["coqchk", "-silent", "-o", "-Q", ".", "Cb", "Cb.%s.Properties_%s" % (PROP, PROP)], cwd=common.COQ, timeout=1500)
+        ok = rc == 0 and "Axioms: <none>" in (o + e).replace("\n", " ").replace("  ", " ")
+        rep.coverage["coqchk"] = {"rc": rc, "axioms_none": "* Axioms: <none>" in o + e, "tail": (o + e)[-400:]}
+        if rc != 0:
+            rep.violation("coqchk", {"log": (o + e)[-3000:]}, "coqchk rejects the compiled closure of Properties_C04", True)
 
     rep.coverage.update({
         "evaluations": n_eval, "distinct_nontrivial": nontriv,
